@@ -41,6 +41,8 @@ ATTACKS = {
     "G_StaleTermAppend": [("a", dict(B, G_StaleTermAppend="FALSE"), ["Inv_C01", "Inv_C02", "Inv_C04", "Inv_C05"])],
     "G_CommitMonotone": [("a", {"MaxTerm": 2, "MaxLog": 4, "MaxInflight": 2, "MaxElections": 1, "MaxCmds": 2,
                                 "Orphans": "TRUE", "G_CommitMonotone": "FALSE"}, ["Inv_C19"])],
+    "FixD14": [("a", {"Node": "{n1, n2}", "InitVoters": "{n1}", "MaxTerm": 2, "MaxLog": 6, "MaxInflight": 1, "MaxElections": 1, "MaxCmds": 2, "MaxCfgReqs": 1,
+                      "EdAddPromote": "{n2}", "RoundFastSet": "{TRUE, FALSE}", "FixD14": "FALSE"}, ["Inv_C11"])],
     # leadership transfer (2 voters: the smallest cluster in which a transfer is possible)
     "G_XferCaughtUp": [("a", dict(X2, G_XferCaughtUp="FALSE"), ["Inv_C16"])],
     "G_XferBlocksEntries": [("a", dict(X2, G_XferBlocksEntries="FALSE", MaxCmds=2), ["Inv_C16"])],
